@@ -82,6 +82,17 @@ Proof.
   exact (wmw_write_once_of_accepted _ (wmw_steps_accepted summ1 summN p Hf Hb) l1 w l2 Hl).
 Qed.
 
+(* in terms of wm_run (the log oldest first, as the correspondence driver prints it) *)
+Lemma wmw_evs_run : forall summ1 summN p,
+  wmw_evs (wm_st_log (fst (wm_run_full summ1 summN p))) = map wmw_to_wo (wm_run summ1 summN p).
+Proof. intros. unfold wm_run, wmw_evs. rewrite wm_rev_eq. reflexivity. Qed.
+
+Theorem wmw_wm_run_accepted : forall summ1 summN p,
+  let st := fst (wm_run_full summ1 summN p) in
+  wm_st_fault st = false -> wmw_bounded (wm_st_log st) ->
+  wo_check_log (map wmw_to_wo (wm_run summ1 summN p)) = true.
+Proof. intros summ1 summN p st Hf Hb. rewrite <- wmw_evs_run. apply wmw_run_accepted; assumption. Qed.
+
 (* ================================================================ C03 layer 1, clean crash points *)
 Lemma wmw_accepted_prefix_inv : forall l, wo_check_log l = true ->
   forall k, exists s, wo_run false wo_st0 0 (firstn k l) = inl s /\ wo_inv s (wo_file_after (firstn k l)).
